@@ -89,28 +89,36 @@ def slot_families(ctx: Ctx, rule: str, only_family: str | None = None, producers
 
 
 def index_dicts(ctx: Ctx, rule: str):
-    """The dict handed to template.<fam>_index maps element name -> enumerate index."""
+    """The dict handed to template.<fam>_index maps element name -> index of that same element."""
+    from . import util
+
     cgc = ctx.sm.cls("codegen/base.py", "CodeGenerator")
-    for mname in ("state_index", "parameter_index"):
-        f = cgc.methods.get(mname)
-        ctx.require(f, f"CodeGenerator.{mname} not found")
-        comps = [n for n in ast.walk(f.node) if isinstance(n, ast.DictComp)]
+    for mname in ("state_index", "parameter_index", "monitor_index"):
+        f0 = cgc.methods.get(mname)
+        ctx.require(f0, f"CodeGenerator.{mname} not found")
+        f = util.nff(ctx, f0)
         ok = False
-        if comps:
-            dc = comps[0]
-            g = dc.generators[0]
-            if isinstance(g.target, ast.Tuple) and len(g.target.elts) == 2 and all(isinstance(e, ast.Name) for e in g.target.elts):
-                i, s = g.target.elts[0].id, g.target.elts[1].id
-                ok = norm(dc.key) == f"{s}.name" and norm(dc.value) == i
-        ctx.check(ok, rule, f.key("dict-shape"), "{element.name: index}", f"CodeGenerator.{mname} does not build {{element.name: enumerate-index}}", f.where())
-        calls = [c for c in ast.walk(f.node) if isinstance(c, ast.Call) and isinstance(c.func, ast.Attribute) and c.func.attr.endswith("_index")]
+        # (a) {e.name: i for i, e in enumerate(..)}   (b) for i, e in enumerate(..): D[e.name] = i   (c) counter: D[x.name] = index
+        for n in ast.walk(f.node):
+            if isinstance(n, ast.DictComp):
+                g = n.generators[0]
+                if isinstance(g.target, ast.Tuple) and len(g.target.elts) == 2 and all(isinstance(e, ast.Name) for e in g.target.elts):
+                    i, e = g.target.elts[0].id, g.target.elts[1].id
+                    ok = ok or (norm(n.key) == f"{e}.name" and norm(n.value) == i and isinstance(g.iter, ast.Call) and norm(g.iter.func) == "enumerate")
+            if isinstance(n, ast.For):
+                stores = [a for a in ast.walk(n) if isinstance(a, ast.Assign) and isinstance(a.targets[0], ast.Subscript) and isinstance(a.value, ast.Name)]
+                for a in stores:
+                    key, val = norm(a.targets[0].slice), a.value.id
+                    if isinstance(n.target, ast.Tuple) and len(n.target.elts) == 2 and all(isinstance(e, ast.Name) for e in n.target.elts) and isinstance(n.iter, ast.Call) and norm(n.iter.func) == "enumerate":
+                        i, e = n.target.elts[0].id, n.target.elts[1].id
+                        ok = ok or (key == f"{e}.name" and val == i)
+                    elif isinstance(n.target, ast.Name):
+                        # manual counter: the stored value is the counter advanced in this loop
+                        augs = {x.target.id for x in ast.walk(n) if isinstance(x, ast.AugAssign) and isinstance(x.target, ast.Name)}
+                        ok = ok or (key == f"{n.target.id}.name" and val in augs)
+        ctx.check(ok, rule, f.key("dict-shape"), "{element.name: index of that element}", f"CodeGenerator.{mname} does not build {{element.name: index of that same element}}", f.where())
+        calls = [c for c in ast.walk(f.node) if isinstance(c, ast.Call) and isinstance(c.func, ast.Attribute) and c.func.attr.endswith("_index") and (dotted(c.func.value) or "").endswith("template")]
         ctx.check(bool(calls) and calls[0].func.attr == mname, rule, f.key("template-function"), f"calls template.{mname}", f"CodeGenerator.{mname} calls template.{calls[0].func.attr if calls else None}", f.where())
-    f = cgc.methods.get("monitor_index")
-    stores = [n for n in ast.walk(f.node) if isinstance(n, ast.Assign) and isinstance(n.targets[0], ast.Subscript)]
-    ok = bool(stores) and norm(stores[0].targets[0].slice).endswith(".name") and isinstance(stores[0].value, ast.Name)
-    ctx.check(ok, rule, f.key("dict-shape"), "data[x.name] = index", "CodeGenerator.monitor_index does not store data[x.name] = index", f.where())
-    calls = [c for c in ast.walk(f.node) if isinstance(c, ast.Call) and isinstance(c.func, ast.Attribute) and c.func.attr.endswith("_index")]
-    ctx.check(bool(calls) and calls[0].func.attr == "monitor_index", rule, f.key("template-function"), "calls template.monitor_index", f"CodeGenerator.monitor_index calls template.{calls[0].func.attr if calls else None}", f.where())
     f = cgc.methods.get("missing_index")
     calls = [c for c in ast.walk(f.node) if isinstance(c, ast.Call) and isinstance(c.func, ast.Attribute) and c.func.attr.endswith("_index")]
     ctx.check(bool(calls) and calls[0].func.attr == "missing_index", rule, f.key("template-function"), "calls template.missing_index", f"CodeGenerator.missing_index calls template.{calls[0].func.attr if calls else None}", f.where())
@@ -298,13 +306,21 @@ def counts(ctx: Ctx, rule: str):
     # array extents
     cgc = sm.cls("codegen/base.py", "CodeGenerator")
     want = {"initial_state_values": "STATE", "initial_parameter_values": "PARAM", "rhs": "STATE", "monitor_values": "MONITOR", "missing_values": "MISSING", "_missing_variables_assignments": "MISSING"}
+    from . import util
+
     for mname, fam in want.items():
-        f = cgc.methods[mname]
+        f = util.nff(ctx, cgc.methods[mname])
         ibs = [c for c in find_calls(f.node, "IndexedBase")]
+        # the array this method fills: its own IndexedBase (not the ones of inlined argument helpers)
+        own = [c for c in ibs if c.args and (const_str(c.args[0]) in ("values", "missing_variables") or isinstance(c.args[0], ast.Name))]
+        ibs = own or ibs
         ctx.require(ibs, f"CodeGenerator.{mname}: IndexedBase not found")
         sh = call_kw(ibs[0], "shape")
-        got = slots.size_family(sh) if sh is not None else None
-        ctx.check(got == fam, rule, f.key("extent"), f"extent {slots.canon_size(sh) if sh is not None else None}", f"CodeGenerator.{mname}: array extent {slots.canon_size(sh) if sh is not None else None} is not the size of the {fam} family", f.where(ibs[0]))
+        shr = util.canon_of(f).resolve(sh) if sh is not None else None
+        if isinstance(shr, ast.Tuple) and len(shr.elts) == 1:
+            shr = ast.Tuple([util.strip_int(shr.elts[0])], ast.Load())
+        got = slots.size_family(shr) if shr is not None else None
+        ctx.check(got == fam, rule, f.key("extent"), f"extent {slots.canon_size(shr) if shr is not None else None}", f"CodeGenerator.{mname}: array extent {slots.canon_size(shr) if shr is not None else None} is not the size of the {fam} family", f.where(ibs[0]))
     for m in common.scheme_models(ctx).values():
         got = slots.size_family(m.values_shape) if m.values_shape is not None else None
         ctx.check(got == "STATE", rule, m.func.key("extent"), "scheme result has one entry per state", f"{m.func.name}: result extent {norm(m.values_shape) if m.values_shape is not None else None} is not the number of states", m.func.where())
